@@ -12,6 +12,7 @@ Python exceptions are printed `err:<Class>` (the site is dropped: the harness se
 -/
 import WpModel.Model.Wire
 import WpModel.Model.LineBreak
+import WpModel.Model.LineBreakTrace
 
 namespace Wp.Drive.LineBreak
 open Wp Wp.Py Wp.Pango Wp.LB
@@ -90,6 +91,10 @@ def handle (cmd : String) (args : List Sx) : Option String :=
     let st ← style? ws wb ow fs
     let r := splitFirstLineH (← heur.bool?) st (← text? text) (← maxw? maxw) (← ils.bool?) (← mn.bool?)
     pure (render (r.map resSx))
+  | "sfl-branches", [text, ws, wb, ow, fs, maxw, ils, mn] => do
+    let st ← style? ws wb ow fs
+    pure (" ".intercalate (Wp.LBTrace.trace st (← text? text) (← maxw? maxw) (← ils.bool?) (← mn.bool?)))
+  | "sfl-all-branches", [] => pure (" ".intercalate Wp.LBTrace.allBranches)
   | "stb", [text, ws, wb, ow, fs, maxw, skip, ils] => do
     let st ← style? ws wb ow fs
     let r := splitTextBox st (← text? text) (← maxw? maxw) (← skip.nat?) (← ils.bool?)
